@@ -128,9 +128,11 @@ def evaluate(prop, scripts, drivers):
                 stats["replies" if a.kind == "R" else "silence" if a.kind == "N" else "panics"] += 1
                 for name, v in b.monitors.items():
                     stats["monitor_evals"] += 1
-                    if not v:
+                    if not v and (not hasattr(prop, "monitor_applies") or prop.monitor_applies(name, s, fi)):
                         issues.append({"kind": "monitor", "script": s, "frame": fi, "driver": dname,
-                                       "monitor": name, "impl": a.short(), "model": b.short()})
+                                       "monitor": name, "impl": a.short(), "model": b.short(),
+                                       # a monitor that applies to a frame because of what precedes it: keep the history
+                                       "noshrink": name in getattr(prop, "NOSHRINK_MONITORS", ())})
                 pa, pb = prop.project(s, fi, a), prop.project(s, fi, b)
                 if pa != pb:
                     issues.append({"kind": "correspondence", "script": s, "frame": fi, "driver": dname,
